@@ -5,6 +5,8 @@ import BV.Drv.C15
 import BV.Drv.Ash
 import BV.Drv.C05
 import BV.Drv.C07
+import BV.Drv.C06
+import BV.Drv.C08
 
 def dispatch (line : String) : String :=
   match (line.trimAscii.toString.splitOn " ").filter (· ≠ "") with
@@ -17,6 +19,8 @@ def dispatch (line : String) : String :=
   | "c02" :: rest => BV.Drv.Ash.c02 rest
   | "c05" :: rest => BV.Drv.C05.handle rest
   | "c07" :: rest => BV.Drv.C07.handle rest
+  | "c06" :: rest => BV.Drv.C06.handle rest
+  | "c08" :: rest => BV.Drv.C08.handle rest
   | _ => "bad-op"
 
 partial def loop (h : IO.FS.Stream) (out : IO.FS.Stream) : IO Unit := do
